@@ -110,6 +110,12 @@ class C07(SeqProp):
             if k in ("enable_eom", "modify_eom", "disable_eom") and op.get("correct") and name in cur:
                 ch = seq._schedule[name].channel_obj
                 resync |= {(ch.basis, q) for q in cur[name][-1].targets}
+        if not ok:
+            # what a call that raised may have left behind is C09's subject (with its own known
+            # findings): the sum of shifts restarts from the references as they are now
+            for b in now:
+                for q in now[b]:
+                    exp[b][q] = now[b][q]
         # EOM drift corrections are not re-derived by the oracle: resynchronise those atoms
         for b, q in resync:
             exp[b][q] = now[b][q]
